@@ -66,6 +66,8 @@ class Interp(object):
         self.auto_unfold = True
         self._qcache = {}
         self._quant_cache = {}
+        self._abs_memo = {}
+        self._abs_nonneg = {}
         self._seq_cache = {}
         self.used_lemmas = set()
         self.entry_snapshot = None
@@ -84,7 +86,10 @@ class Interp(object):
         self._ps_keep = []
         self._last_values = None
         self.seq_mode = False
-        self.br.oracle = lambda pc, extra: self.query(pc, extra, self.br.feas_timeout_ms)
+        self.br.oracle = lambda pc, extra: self.query(pc, extra, self.br.feas_timeout_ms, approx_ok=True)
+        self._abs_solver = None
+        self._abs_ids = []
+        self._abs_nn_done = set()
         self.br.in_process = lambda: not self.seq_mode
 
     def fresh_name(self, base):
@@ -254,7 +259,46 @@ class Interp(object):
             self._seq_cache[k] = r
         return r[0]
 
-    def query(self, pc, extra, budget_ms=600, values=None):
+    # ---- arithmetic abstraction of sequence terms (cheap in-process pre-check) ----
+    def abstract(self, t):
+        from .solver import abstract_term
+        return abstract_term(t, self._abs_memo, self._abs_nonneg)
+
+    def abstract_check(self, pc, extra):
+        """unsat / sat-of-abstraction (z3.sat means only: the abstraction is satisfiable)."""
+        s = self._abs_solver
+        ids = self._abs_ids
+        n = len(ids)
+        ok = s is not None and n <= len(pc)
+        if ok:
+            for k in range(n):
+                if pc[k].get_id() != ids[k]:
+                    ok = False
+                    break
+        if not ok:
+            s = self._abs_solver = z3.Solver()
+            self._abs_ids = ids = []
+            self._abs_nn_done = set()
+            n = 0
+        for p in pc[n:]:
+            a = self.abstract(p)
+            if a is not None:
+                s.add(a)
+            ids.append(p.get_id())
+        e = self.abstract(extra)
+        for k, c in list(self._abs_nonneg.items()):
+            if k not in self._abs_nn_done:
+                self._abs_nn_done.add(k)
+                s.add(c >= 0)
+        set_budget(s, 300)
+        s.push()
+        if e is not None:
+            s.add(e)
+        r = s.check()
+        s.pop()
+        return r
+
+    def query(self, pc, extra, budget_ms=600, values=None, approx_ok=False):
         # engine-internal queries ignore quantified hypotheses: feasibility is then
         # over-approximated and entailment under-approximated, both sound
         pc = [p for p in pc if not self.has_quant(p)]
@@ -265,6 +309,13 @@ class Interp(object):
                 return r[0]
         if self.seq_mode or self.uses_seq(extra) or any(self.uses_seq(p) for p in pc):
             self.seq_mode = True
+            if values is None and self.config.get('abstraction', True):
+                ra = self.abstract_check(pc, extra)
+                if ra == z3.unsat:
+                    self._qcache[key] = (z3.unsat, tuple(pc), extra)
+                    return z3.unsat
+                if approx_ok and ra == z3.sat:
+                    return z3.sat          # feasibility may be over-approximated
             from . import solver
             res, vals, _ = solver.check(list(pc) + [extra], budget_ms, True, values)
             r = {'sat': z3.sat, 'unsat': z3.unsat}.get(res, z3.unknown)
@@ -1505,6 +1556,11 @@ class Interp(object):
         raise OutOfReach('equality of %r and %r' % (a, b))
 
     def contains(self, cont, x):
+        if isinstance(cont, SymFlags):
+            for f, t in zip(cont.flags, cont.terms):
+                if f is x:
+                    return self.wrap_bool(t)
+            return False
         if isinstance(cont, (tuple, list, frozenset, set, dict)) and not is_sym(x):
             if all(not is_sym(e) for e in cont):
                 try:
